@@ -279,15 +279,47 @@ fn run_history(workload_file: &Path, indices: &[usize]) -> Vec<HistoryLine> {
 /// Also says whether the tree printed to stdout around the hooked macros (then the history decides nothing).
 fn run_history_x(workload_file: &Path, indices: &[usize]) -> (Vec<HistoryLine>, bool) {
     let list = indices.iter().map(|i| i.to_string()).collect::<Vec<_>>().join(",");
-    let out = std::process::Command::new(std::env::current_exe().unwrap())
+    // a history must not be able to stall the check: a wall budget of 2 s per call plus the budget of one command
+    let mut child = std::process::Command::new(std::env::current_exe().unwrap())
         .args(["c18-history", "--workload", workload_file.to_str().unwrap(), "--indices", &list])
-        .output()
+        .stdin(std::process::Stdio::null())
+        .stdout(std::process::Stdio::piped())
+        .stderr(std::process::Stdio::null())
+        .spawn()
         .unwrap_or_else(|e| harness_error(&format!("cannot start c18-history: {e}")));
+    let mut pipe = child.stdout.take().unwrap();
+    let reader = std::thread::spawn(move || {
+        let mut v = vec![];
+        let _ = std::io::Read::read_to_end(&mut pipe, &mut v);
+        v
+    });
+    let budget = std::time::Duration::from_secs(TIMEOUT_S + 4 * indices.len() as u64);
+    let t0 = Instant::now();
+    let mut timed_out = false;
+    let status = loop {
+        match child.try_wait() {
+            Ok(Some(st)) => break st,
+            Ok(None) if t0.elapsed() > budget => {
+                timed_out = true;
+                let _ = child.kill();
+                break child.wait().unwrap();
+            }
+            Ok(None) => std::thread::sleep(std::time::Duration::from_millis(5)),
+            Err(e) => harness_error(&format!("waiting for c18-history: {e}")),
+        }
+    };
+    struct Out {
+        stdout: Vec<u8>,
+        status: std::process::ExitStatus,
+    }
+    let out = Out { stdout: reader.join().unwrap_or_default(), status };
     let text = String::from_utf8_lossy(&out.stdout).into_owned();
     let n_lines = text.lines().filter(|l| serde_json::from_str::<HistoryLine>(l).is_ok()).count();
     // (a history process that ends with status 0 before it is through was ended by the tree itself calling exit():
     // nothing can be concluded from it)
-    let exited_early = out.status.code() == Some(0) && n_lines < indices.len();
+    // (likewise a history that had to be stopped: a call that hangs only inside the long-lived harness process, where
+    // the tree's own threads meet the simulator's coroutines, is not evidence about anthem)
+    let exited_early = (out.status.code() == Some(0) || timed_out) && n_lines < indices.len();
     let stray = exited_early || text.lines().any(|l| l.contains("\"stray_stdout\":true"));
     (text.lines().filter_map(|l| serde_json::from_str(l).ok()).collect(), stray)
 }
